@@ -569,6 +569,12 @@ def rule_e(repo, res, me):
     res.check(not aliased, "C11.e", "pad:rows-are-distinct-objects", where, "padding rows share one list object (%s): the in-place analysis then filters the shared row several times and the round trip fails whenever two or more rows are added" % aliased, by="every added row is a fresh copy")
     # forward_wavelet_transform pads all three components before transforming
     fw = me.funcs.get("forward_wavelet_transform")
-    t = norm(fw) if fw is not None else ""
-    ok = "for c in ['Y', 'C1', 'C2']: dwt_pad_addition(state, current_picture[c], c)" in t and t.index("dwt_pad_addition") < t.index("dwt(state")
+    ok = False
+    if fw is not None:
+        from ..core import pfind
+
+        pp = [a.arg for a in fw.args.args]
+        n_pad, e_pad = pfind("for X_c in ['Y', 'C1', 'C2']:\n    dwt_pad_addition(%s, %s[X_c], X_c)" % (pp[0], pp[1]), fw)
+        dwts = [c for c in ast.walk(fw) if isinstance(c, ast.Call) and dotted(c.func) == "dwt"]
+        ok = n_pad is not None and bool(dwts) and all(c.lineno > n_pad.end_lineno for c in dwts) and n_pad in fw.body
     res.check(ok, "C11.e", "pad:before-transform", "%s:forward_wavelet_transform" % me.rel, "every component must be padded before dwt() is applied", by="padding precedes dwt for Y, C1, C2")
